@@ -194,7 +194,9 @@ namespace
                 << " block patterns X=" << bx << " D=" << bd << " A=" << ba << " B=" << bb << (any_empty ? (rep ? " empty-rep=allocated" : " empty-rep=entry-free") : "")
                 << " allow_incomplete=" << allow << (complete ? " complete" : " INCOMPLETE") << " alpha in {1,-1,1/2,0.3,0} x {exact,rounding} alphabet"; return o.str(); });
               const bool validate = (dies || (any_empty && rep == 0)) && (all % 97 == 0);
-              run_product<DT, IT, BS>(c, pop, d, bx, bd, ba, bb, rep, allow != 0, complete, validate);
+              const bool efd = (bd == 0 && rep == 0), efa = ((ba == 0) && rep == 0), efx = (bx == 0 && rep == 0), efb = (bb == 0 && rep == 0);
+              product_case(c, efd || efa || efx || efb, dies, all, pname[pop], std::string("entry-free operand ") + pname[pop] + " " + (efd ? "d" : efa ? "a" : efx ? "this" : "b"),
+                [&]{ run_product<DT, IT, BS>(c, pop, d, bx, bd, ba, bb, rep, allow != 0, complete, validate); });
               if(bd != 0 && bb != 0 && ba != 0) c.nontrivial(verif::Hash().str("pb").str(tp<DT, IT>()).pod(BS).pod(pop).pod(d).pod(all).pod(rep).pod(allow).get());
               c.outcome(std::string(pname[pop]) + (dies ? " must-abort" : complete ? " complete" : " incomplete-allowed"));
             }
